@@ -498,8 +498,10 @@ fn render_fn(r: &R, fr: FnRef, contract: &str, as_name: Option<&str>) -> String 
         let mut c = Coll { r, edits: vec![] };
         c.visit_signature(sig);
         // rename
-        if let Some(n) = as_name {
-            c.edits.push((range(sig.ident.span()), n.to_string()));
+        {
+            let g = r.opts.get("generics").unwrap_or("");
+            let n = as_name.map(|s| s.to_string()).unwrap_or_else(|| sig.ident.to_string());
+            c.edits.push((range(sig.ident.span()), format!("{}{}", n, g)));
         }
         // named result
         if let syn::ReturnType::Type(_, ty) = &sig.output {
